@@ -37,7 +37,7 @@ A program is described by a tuple (picklable, JSON-able):
   ('fact', gctx, fbody, layout, ncallees, variant)
   ('pin', fmt, mode, who, position)
   ('argnest', cctx, bctx, position)     an inlined call nested in an argument of an inlined call
-  ('two', gctx, body, layout)           two callees: a local of one named like a free variable of the other
+  ('two', gctx, body, layout, naming)   two callees (distinct names, or the SAME def name from two factories): a local of one named like a free variable of the other
 and `build(desc)` returns its source text.
 """
 
@@ -385,16 +385,25 @@ TWO_LAYOUTS = {
 
 
 def _build_two(desc) -> str:
-    _, gctx, body, layout = desc
+    _, gctx, body, layout, naming = desc
     src = f'K = {K_VALUE}\nKF = {KF_VALUE}\nKG = {KG_VALUE}\n\n'
-    src += _callee('g1', gctx, ('x', 'xs'), TWO_BODIES[body]) + '\n'
-    src += _callee('g2', gctx, *BODIES['glob']) + '\n'
+    if naming == 'samename':
+        # two DIFFERENT functions that carry the same `def` name, from two factories
+        for factory, target, (params, lines) in (('_make_local', 'g1', (('x', 'xs'), TWO_BODIES[body])),
+                                                 ('_make_global', 'g2', BODIES['glob'])):
+            inner = _callee('g', gctx, params, lines)
+            inner = '\n'.join('    ' + ln for ln in inner.rstrip('\n').split('\n'))
+            src += f'def {factory}():\n{inner}\n    return g\n\n{target} = {factory}()\n\n'
+    else:
+        src += _callee('g1', gctx, ('x', 'xs'), TWO_BODIES[body]) + '\n'
+        src += _callee('g2', gctx, *BODIES['glob']) + '\n'
     cbody = '\n'.join('    ' + ln for ln in TWO_LAYOUTS[layout] + [RET])
     return src + f'@fp.fpy\ndef f(u: fp.Real, v: fp.Real, us: list[fp.Real], n: fp.Real):\n{cbody}\n'
 
 
 def all_twos() -> list[tuple]:
-    return [('two', gctx, body, layout) for layout in TWO_LAYOUTS for body in TWO_BODIES for gctx in CALLEE_CTX]
+    return [('two', gctx, body, layout, naming) for naming in ('distinct', 'samename')
+            for layout in TWO_LAYOUTS for body in TWO_BODIES for gctx in CALLEE_CTX]
 
 
 def build(desc) -> str:
@@ -432,8 +441,8 @@ def describe(desc) -> dict:
         return {'position': f'argnest_{position}', 'inner': '-', 'effect': 'mutates-arg',
                 'callee': 'comb(.., b(..))', 'callee_ctx': f'{cctx}>{bctx}', 'args': 'A0'}
     if desc[0] == 'two':
-        _, gctx, body, layout = desc
-        return {'position': f'two_{layout}', 'inner': body, 'effect': 'reads-global',
+        _, gctx, body, layout, naming = desc
+        return {'position': f'two_{layout}', 'inner': f'{body}/{naming}', 'effect': 'reads-global',
                 'callee': f'{body}+glob', 'callee_ctx': gctx, 'args': 'A0'}
     if desc[0] == 'pin':
         _, fmt, mode, who, position = desc
